@@ -32,6 +32,7 @@ import (
 	"github.com/google/gce-tcb-verifier/sev"
 	"github.com/google/gce-tcb-verifier/verify"
 	spb "github.com/google/go-sev-guest/proto/sevsnp"
+	tpb "github.com/google/go-tdx-guest/proto/tdx"
 	tpmpb "github.com/google/go-tpm-tools/proto/attest"
 	"github.com/google/uuid"
 	"google.golang.org/protobuf/proto"
@@ -358,6 +359,7 @@ func TestMain(m *testing.M) {
 	isolate.MaybeWorker()
 	code := m.Run()
 	isolate.Shutdown()
+	ev.Note("worker restarts: %d; verdicts (death / watchdog) that did not reproduce on a fresh worker and were therefore not counted: %d", isolate.Restarts, isolate.Flaky)
 	ev.Flush()
 	os.Exit(code)
 }
@@ -612,7 +614,7 @@ func genEventLog(t *rapid.T) ([]byte, string) {
 }
 
 func genAttestation(t *rapid.T, endorsement []byte) ([]byte, string) {
-	kind := rapid.SampledFrom([]string{"snp/tpm", "snp/snpproto", "snp/raw", "snp/raw-hex", "snp/raw-b64", "snp/report-only", "snp/certtable-only", "tdx/raw", "tdx/tpm", "tdx/raw-hex", "random", "empty"}).Draw(t, "attKind")
+	kind := rapid.SampledFrom([]string{"snp/tpm", "snp/snpproto", "snp/raw", "snp/raw-hex", "snp/raw-b64", "snp/report-only", "snp/certtable-only", "tdx/raw", "tdx/tpm", "tdx/raw-hex", "random", "empty", "partial-proto"}).Draw(t, "attKind")
 	var b []byte
 	extras := map[string][]byte{}
 	if rapid.Bool().Draw(t, "withExtra") {
@@ -659,6 +661,26 @@ func genAttestation(t *rapid.T, endorsement []byte) ([]byte, string) {
 		b = tf["tpm"]
 	case "tdx/raw-hex":
 		b = []byte(hex.EncodeToString(attest.TdxRawQuote(mrtd)))
+	case "partial-proto":
+		// well-formed wrappers with a sub-message absent: the getters must be nil-safe all the way down
+		var m proto.Message
+		switch rapid.IntRange(0, 6).Draw(t, "partial") {
+		case 0:
+			m = &tpmpb.Attestation{TeeAttestation: &tpmpb.Attestation_SevSnpAttestation{SevSnpAttestation: &spb.Attestation{}}}
+		case 1:
+			m = &tpmpb.Attestation{TeeAttestation: &tpmpb.Attestation_SevSnpAttestation{SevSnpAttestation: &spb.Attestation{CertificateChain: at.CertificateChain}}}
+		case 2:
+			m = &tpmpb.Attestation{TeeAttestation: &tpmpb.Attestation_TdxAttestation{TdxAttestation: &tpb.QuoteV4{}}}
+		case 3:
+			m = &tpmpb.Attestation{}
+		case 4:
+			m = &spb.Attestation{CertificateChain: at.CertificateChain}
+		case 5:
+			m = &tpmpb.Attestation{TeeAttestation: &tpmpb.Attestation_TdxAttestation{TdxAttestation: &tpb.QuoteV4{TdQuoteBody: &tpb.TDQuoteBody{}}}}
+		default:
+			m = &spb.Attestation{Report: &spb.Report{}}
+		}
+		b, _ = proto.Marshal(m)
 	case "random":
 		b = rapid.SliceOfN(rapid.Byte(), 0, 200).Draw(t, "rand")
 	case "empty":
